@@ -67,6 +67,13 @@ pub enum Action {
     EmmyrcWrite { diagnostic_interval: Option<u64>, enable_reindex: bool, reindex_duration: u64 },
     /// a response for a request id the server never issued
     StrayResponse { id: i32 },
+    /// editor-initiated rename of the file of `from` to the (free) path of `to`: the file is moved
+    /// on disk, `workspace/didRenameFiles` is sent, the watcher events follow later.
+    /// `require_closed`: skip unless both documents are closed in the editor (content-judging
+    /// properties only rename files the editor does not hold).
+    RenameFile { from: usize, to: usize, require_closed: bool },
+    /// `$/setTrace` (kind 0) or a notification the server does not know (kind 1..)
+    MiscNotification { kind: u32 },
 }
 
 #[derive(Serialize, Deserialize, Clone, Debug, PartialEq)]
@@ -96,11 +103,14 @@ pub struct RunSpec {
 /// global; nothing a text contains is visible from another file.
 pub fn doc_text(doc: usize, n: u32, flavour: u32) -> String {
     let mut s = format!("local v_{doc}_{n} = {n}\n");
-    match flavour % 5 {
+    match flavour % 8 {
         1 => s.push_str(&format!("local u_{doc}_{n} = undefined_g_{doc}_{n}\nreturn u_{doc}_{n}\n")),
         2 => s.push_str("local function = \n"),
         3 => s.push_str(&format!("---@type string\nlocal t_{doc}_{n} = 1\nreturn t_{doc}_{n}\n")),
         4 => s.push_str("return {}\n"),
+        // flavours >= 5 make documents depend on each other (`require`); only profiles that do
+        // not judge content or diagnostics draw them
+        5 | 6 | 7 => s.push_str(&format!("local m_{doc}_{n} = require(\"d{}\")\nreturn m_{doc}_{n}\n", (doc + (flavour as usize - 4)) % 4)),
         _ => {}
     }
     s
@@ -159,6 +169,12 @@ pub struct Profile {
     pub w_watch: u32,
     pub w_emmyrc: u32,
     pub w_stray: u32,
+    pub w_rename: u32,
+    pub w_misc_notif: u32,
+    /// number of text flavours drawn (5: self-contained texts only; 8: also `require` of other documents)
+    pub flavours: u64,
+    /// renames only of files the editor does not hold
+    pub rename_closed_only: bool,
     // gap weights: zero, yield, short sleep (1..20ms), around-debounce, seconds, advance
     pub g: [u32; 6],
     pub malformed_permille: u32,
@@ -207,6 +223,10 @@ pub fn profile(prop: &str) -> Profile {
         w_watch: 0,
         w_emmyrc: 0,
         w_stray: 0,
+        w_rename: 0,
+        w_misc_notif: 0,
+        flavours: 5,
+        rename_closed_only: true,
         g: [50, 25, 10, 5, 5, 5],
         malformed_permille: 0,
         unknown_method_permille: 0,
@@ -229,8 +249,13 @@ pub fn profile(prop: &str) -> Profile {
             w_request: 40,
             w_cancel: 12,
             w_change_config: 2,
-            w_watch: 0,
             w_stray: 3,
+            w_rename: 3,
+            w_misc_notif: 2,
+            w_disk_write: 2,
+            w_watch: 3,
+            flavours: 8,
+            rename_closed_only: false,
             g: [45, 25, 15, 5, 5, 5],
             malformed_permille: 220,
             unknown_method_permille: 60,
@@ -252,6 +277,10 @@ pub fn profile(prop: &str) -> Profile {
             w_disk_delete: 2,
             w_watch: 12,
             w_emmyrc: 4,
+            w_rename: 4,
+            w_misc_notif: 1,
+            flavours: 8,
+            rename_closed_only: false,
             g: [60, 25, 8, 2, 3, 2],
             allow_reindex: true,
             client_faults: true,
@@ -269,6 +298,7 @@ pub fn profile(prop: &str) -> Profile {
             w_disk_delete: 4,
             w_watch: 10,
             w_emmyrc: 5,
+            w_rename: 3,
             g: [35, 20, 10, 10, 20, 5],
             allow_reindex: true,
             reload_bursts: true,
@@ -286,6 +316,7 @@ pub fn profile(prop: &str) -> Profile {
             w_disk_delete: 4,
             w_watch: 8,
             w_emmyrc: 3,
+            w_rename: 2,
             g: [25, 15, 10, 25, 15, 10],
             allow_pull: false,
             force_push: true,
@@ -368,7 +399,7 @@ pub fn generate(prop: &str, seed: u64) -> RunSpec {
         } else {
             format!("notes/d{d}.txt")
         };
-        let on_disk = if r.chance(3, 5) { Some(doc_text(d, 0, r.below(5) as u32)) } else { None };
+        let on_disk = if r.chance(3, 5) { Some(doc_text(d, 0, r.below(p.flavours) as u32)) } else { None };
         docs.push(DocSpec { rel, on_disk, in_workspace: in_ws });
     }
 
@@ -386,7 +417,7 @@ pub fn generate(prop: &str, seed: u64) -> RunSpec {
     let mut script = Vec::new();
     let weights = [
         p.w_open, p.w_change, p.w_save, p.w_close, p.w_request, p.w_cancel, p.w_change_config,
-        p.w_disk_write, p.w_disk_delete, p.w_watch, p.w_emmyrc, p.w_stray,
+        p.w_disk_write, p.w_disk_delete, p.w_watch, p.w_emmyrc, p.w_stray, p.w_rename, p.w_misc_notif,
     ];
     // A third of the reload-oriented scripts start with the rarest combination spelled out: one
     // document open (often one that does not exist on disk), a reload trigger, and the close of
@@ -395,7 +426,7 @@ pub fn generate(prop: &str, seed: u64) -> RunSpec {
         let d = (0..ndocs).find(|i| docs[*i].in_workspace && !disk[*i] && r.chance(2, 3)).unwrap_or_else(|| r.usize_below(ndocs));
         if docs[d].in_workspace {
             ver[d] += 1;
-            script.push(Step { gap: gen_gap(&mut r, &p, interval), action: Action::Open { doc: d, text: doc_text(d, ver[d], r.below(5) as u32) } });
+            script.push(Step { gap: gen_gap(&mut r, &p, interval), action: Action::Open { doc: d, text: doc_text(d, ver[d], r.below(p.flavours) as u32) } });
             let emmyrc = r.chance(1, 2);
             if emmyrc {
                 script.push(Step {
@@ -409,7 +440,7 @@ pub fn generate(prop: &str, seed: u64) -> RunSpec {
             }
             if r.chance(1, 2) {
                 ver[d] += 1;
-                script.push(Step { gap: Gap::Yield(r.range(1, 4) as u32), action: Action::Change { doc: d, text: doc_text(d, ver[d], r.below(5) as u32) } });
+                script.push(Step { gap: Gap::Yield(r.range(1, 4) as u32), action: Action::Change { doc: d, text: doc_text(d, ver[d], r.below(p.flavours) as u32) } });
             }
             let base = if emmyrc { 2000u64 } else { 0 };
             let gap = match r.below(7) {
@@ -437,14 +468,14 @@ pub fn generate(prop: &str, seed: u64) -> RunSpec {
                 open[d] = true;
                 ver[d] += 1;
                 // sometimes the editor opens the file with exactly the disk content
-                Action::Open { doc: d, text: doc_text(d, ver[d], r.below(5) as u32) }
+                Action::Open { doc: d, text: doc_text(d, ver[d], r.below(p.flavours) as u32) }
             }
             1 => {
                 if !open[d] {
                     continue;
                 }
                 ver[d] += 1;
-                Action::Change { doc: d, text: doc_text(d, ver[d], r.below(5) as u32) }
+                Action::Change { doc: d, text: doc_text(d, ver[d], r.below(p.flavours) as u32) }
             }
             2 => {
                 if !open[d] || !docs[d].in_workspace {
@@ -499,7 +530,7 @@ pub fn generate(prop: &str, seed: u64) -> RunSpec {
                 ver[d] += 1;
                 disk[d] = true;
                 pending_watch += 1;
-                Action::DiskWrite { doc: d, text: doc_text(d, ver[d], r.below(5) as u32) }
+                Action::DiskWrite { doc: d, text: doc_text(d, ver[d], r.below(p.flavours) as u32) }
             }
             8 => {
                 if !disk[d] || !docs[d].in_workspace {
@@ -525,7 +556,22 @@ pub fn generate(prop: &str, seed: u64) -> RunSpec {
                     reindex_duration: *r.pick(&[0, 1000, 2000]),
                 }
             }
-            _ => Action::StrayResponse { id: 70_000 + r.below(5) as i32 },
+            11 => Action::StrayResponse { id: 70_000 + r.below(5) as i32 },
+            12 => {
+                // move the file of `d` to the path of a document that has no file
+                if !disk[d] || !docs[d].in_workspace {
+                    continue;
+                }
+                let Some(to) = (0..ndocs).find(|t| *t != d && !disk[*t] && docs[*t].in_workspace && (!p.rename_closed_only || !open[*t])) else { continue };
+                if p.rename_closed_only && open[d] {
+                    continue;
+                }
+                disk[d] = false;
+                disk[to] = true;
+                pending_watch += 2;
+                Action::RenameFile { from: d, to, require_closed: p.rename_closed_only }
+            }
+            _ => Action::MiscNotification { kind: r.below(4) as u32 },
         };
         let is_trigger = matches!(action, Action::ChangeConfig { .. } | Action::EmmyrcWrite { .. });
         let is_emmyrc = matches!(action, Action::EmmyrcWrite { .. });
@@ -555,12 +601,12 @@ pub fn generate(prop: &str, seed: u64) -> RunSpec {
                         Action::Close { doc: d }
                     } else {
                         ver[d] += 1;
-                        Action::Change { doc: d, text: doc_text(d, ver[d], r.below(5) as u32) }
+                        Action::Change { doc: d, text: doc_text(d, ver[d], r.below(p.flavours) as u32) }
                     }
                 } else {
                     open[d] = true;
                     ver[d] += 1;
-                    Action::Open { doc: d, text: doc_text(d, ver[d], r.below(5) as u32) }
+                    Action::Open { doc: d, text: doc_text(d, ver[d], r.below(p.flavours) as u32) }
                 };
                 let gap = if first {
                     first = false;
